@@ -344,6 +344,34 @@ def RTCSctpTransport(rng, inst):
         c._acked = False
         q.append(c)
     t._sent_queue = q
+    # data-channel side: a table of registered channels (ids of one parity, as the role fixes it) and an empty queue
+    from aiortc.rtcdatachannel import RTCDataChannel as CH, RTCDataChannelParameters as P
+    t._data_channels = {}
+    par = rng.choice([0, 1])
+    for sid in rng.sample([par, par + 2, par + 4, par + 6, 65534 + par - 2 * par], rng.randrange(4)):
+        ch = CH.__new__(CH)
+        ch._RTCDataChannel__parameters = P(label=rng.choice(["", "a", "\u00e9", "\u65e5\u672c"]), protocol=rng.choice(["", "p"]),
+                                           ordered=rng.random() < 0.5, id=sid,
+                                           maxRetransmits=rng.choice([None, None, 0, 3]))
+        ch._RTCDataChannel__id = sid
+        ch._RTCDataChannel__readyState = rng.choice(["connecting", "open", "open", "closing"])
+        ch._RTCDataChannel__bufferedAmount = rng.choice([0, 0, 5])
+        ch._RTCDataChannel__bufferedAmountLowThreshold = rng.choice([0, 4])
+        ch._RTCDataChannel__transport = t
+        ch._RTCDataChannel__send_open = False
+        t._data_channels[sid] = ch
+    t._data_channel_queue = collections.deque()
+    t._data_channel_id = par
+    t._association_state = rng.choice([T.State.ESTABLISHED, T.State.ESTABLISHED, T.State.CLOSED])
+    # established with a non-empty outbound queue (back-pressure): _data_channel_flush leaves everything queued, so
+    # units that await it can run on this partial object without the whole send path
+    t._outbound_queue = collections.deque([DataChunk()] if t._association_state == T.State.ESTABLISHED else [])
+    t._outbound_stream_seq = {}
+    t._reconfig_queue = []
+    t._reconfig_request = None
+    t._reconfig_request_seq = tsn
+    t._reconfig_response_seq = 0
+    t._local_tsn = (tsn + n) % (1 << 32)
     return t
 
 
